@@ -32,7 +32,7 @@ class Netmap(V.Family):
             "ring position class, elapsed vs count) tuples among steps that changed state or were refused for a reason other than "
             "a missing Alphabet witness")
 
-    def __init__(self, pid):
+    def __init__(self, pid, replay=False):
         ring = pid == "C08"
         if ring:
             self.tiers = {
@@ -50,10 +50,16 @@ class Netmap(V.Family):
                                   ("NetmapMC.tla", "NetmapSubs_quick.cfg")], mc_timeout=900,
                               sim=("NetmapMC.tla", "Netmap_sim.cfg", 80, 31), sim_keep=80, nrand=80, shards=6,
                               env=dict(VERIF_NRING=6, VERIF_NSYS=12)),
-                "thorough": dict(mc=[("NetmapMC.tla", "Netmap_thorough.cfg"), ("NetmapMC.tla", "NetmapSubs_thorough.cfg")], mc_timeout=3000,
-                                 sim=("NetmapMC.tla", "Netmap_sim.cfg", 2500, 31), sim_keep=2500, nrand=4000, shards=14,
+                "thorough": dict(mc=[("NetmapMC.tla", "Netmap_thorough.cfg"), ("NetmapMC.tla", "NetmapDeep_thorough.cfg"),
+                                     ("NetmapMC.tla", "NetmapSubs_thorough.cfg")], mc_timeout=3000,
+                                 sim=("NetmapMC.tla", "Netmap_sim.cfg", 2000, 31), sim_keep=2000, nrand=3000, shards=14,
                                  env=dict(VERIF_NRING=100, VERIF_NSYS=-1), drive_timeout=3400, monitor_timeout=3400),
             }
+
+        if replay:
+            # run_family passes the tier's env to the driver also when replaying: only the replayed scenario is wanted
+            for t in self.tiers.values():
+                t["env"] = dict(VERIF_NRING=0, VERIF_NSYS=0)
 
     def nontrivial_key(self, r, prev):
         o, po = r["obs"], (prev or r)["obs"]
@@ -96,4 +102,4 @@ class Netmap(V.Family):
 
 
 def run(pid, tier, seed, replay=None):
-    return V.run_family(Netmap(pid), pid, tier, seed, replay)
+    return V.run_family(Netmap(pid, replay is not None), pid, tier, seed, replay)
